@@ -191,7 +191,9 @@ def instances(tier):
         prod = None
         for text, expected in ((f"{c1}x * {c2}", "{p}x"), (f"{c1} * ({c2}h * t)", "{p}h * t"), (f"({c1} * {c2}y^3) * x", "{p}y^3 * x"),
                                (f"({c1}q * {c2}y^3) * x", "({p}q * y^3) * x"), (f"{c1}z^4 * {c2}f * q^3", "{p}z^4 * f * q^3"),
-                               (f"(u^3 * {c1}c^6) * {c2}u^3", "u^3 * {p}c^6 * u^3"), (f"{c1} + ({c2} + x)", "{s} + x")):
+                               (f"(u^3 * {c1}c^6) * {c2}u^3", "u^3 * {p}c^6 * u^3"), (f"{c1} + ({c2} + x)", "{s} + x"),
+                               (f"(a * {c1}b^6) * {c2}c^3", "a * {p}b^6 * c^3"), (f"(a * {c1}b) * {c2}c", "a * {p}b * c"),
+                               (f"(a^2 * {c1}b) * {c2}a^2", "a^2 * {p}b * a^2")):
             v1, v2 = Fraction(c1), Fraction(c2)
             p, sm = v1 * v2, v1 + v2
 
@@ -317,6 +319,15 @@ def instances(tier):
                 coefs = [c for c in (c1, c2) if c]
                 exp_text = " * ".join(coefs + [pw]) if coefs else pw
                 yield ("VM", f"{t1} * {t2}", ctx_all, expect_exact(exp_text), "variable-multiply")
+    # chained forms: (k * c1 v^a) * c2 v^b and c1 v^a * (c2 v^b * k): the kept operand, BOTH coefficients and the summed exponent
+    for k, c1, c2 in itertools.product(["a", "y^2"], ["", "2", "-3"], ["", "3", "0.5"]):
+        for e1, e2 in (("", ""), ("^2", "^3"), ("", "^2")):
+            x1, x2 = e1[1:] or "1", e2[1:] or "1"
+            coefs = [c for c in (c1, c2) if c]
+            exp_text = " * ".join([k] + coefs + [f"x^({x1} + {x2})"])
+            if c2:  # the documented left-chained form has a coefficient on the right term: (36c^6 * u^3) * 7u^3
+                yield ("VM", f"({k} * {c1}x{e1}) * {c2}x{e2}", ["{S}", "({S}) + w", "-({S})"], ("find", expect_exact(exp_text)), "variable-multiply-chained")
+            yield ("VM", f"{c1}x{e1} * ({c2}x{e2} * {k})", ["{S}", "({S}) + w"], ("find", expect_exact(exp_text)), "variable-multiply-chained")
     for t in ("x * y", "2x * 3y", "x^2 * y^2", "x * 2"):
         yield ("VM", t, ["{S}", "({S}) + w"], "refuse", "variable-multiply-unlike-refused")
     # 9. balanced move
@@ -507,6 +518,17 @@ def _work(task):
     return acc
 
 
+def _disturb_task(_):
+    """documented forms are accepted and rewritten the same way whatever was called before"""
+    from ..explore import disturb
+    from . import c06
+
+    acc = Acc()
+    for core, detail in disturb.differential("documented-forms", c06._rule_battery):
+        acc.violation(core, {"index": -1, "cfg": "*", "schema": "*", "label": "disturb"}, detail)
+    return acc
+
+
 def run(tier, seed):
     _INST[:] = list(instances(tier))
     n = len(_INST)
@@ -514,6 +536,7 @@ def run(tier, seed):
     k = seed % len(parts)
     parts = parts[k:] + parts[:k]
     acc = merge_all(par.pmap(_work, parts))
+    acc.merge(par.run_fresh(_disturb_task, None))
     cov = {
         "evaluations": acc.n["applications"],
         "distinct_nontrivial": acc.n["instances"],
@@ -530,6 +553,10 @@ def run(tier, seed):
 
 
 def replay(case):
+    if case.get("label") == "disturb":
+        from ..explore import disturb
+        from . import c06
+        return disturb.differential("documented-forms", c06._rule_battery)
     insts = list(instances("thorough"))
     for inst in insts:
         if inst[0] == case["cfg"] and inst[1] == case["schema"] and inst[4] == case["label"]:
